@@ -186,16 +186,29 @@ def run_tlc(spec, cfg, cases_path=None, env=None, workers=2, timeout=1200, xmx="
     return res
 
 
-def run_tlc_sharded(spec, cfg, cases, shards=8, workers=2, prefix="cases", **kw):
-    """split recorded cases over several TLC processes (initial states are computed single-threaded)"""
+def run_tlc_sharded(spec, cfg, cases, shards=8, workers=2, prefix="cases", group_key=None, **kw):
+    """split recorded cases over several TLC processes (initial states are computed single-threaded);
+    group_key keeps cases of one group in one shard"""
     os.makedirs(os.path.join(WORK, "tlc"), exist_ok=True)
     shards = max(1, min(shards, len(cases)))
+    if group_key:
+        groups = {}
+        for c in cases:
+            groups.setdefault(group_key(c), []).append(c)
+        buckets = [[] for _ in range(shards)]
+        for i, g in enumerate(sorted(groups)):
+            buckets[i % shards].extend(groups[g])
+        cases = [c for b in buckets for c in b]
+        sizes = [len(b) for b in buckets]
+    else:
+        sizes = None
     paths = []
     d = tempfile.mkdtemp(prefix=prefix + "-", dir=os.path.join(WORK, "tlc"))
     for s in range(shards):
         path = os.path.join(d, "%s-%d.ndjson" % (prefix, s))
         with open(path, "w") as f:
-            for c in cases[s::shards]:
+            chunk = cases[s::shards] if sizes is None else cases[sum(sizes[:s]):sum(sizes[:s + 1])]
+            for c in chunk:
                 f.write(json.dumps(c) + "\n")
         paths.append(path)
     with ThreadPoolExecutor(shards) as ex:
@@ -285,3 +298,18 @@ def run_bin(args, stdin_text=None, timeout=10, env=None, cwd=None):
         return p.returncode, p.stdout, p.stderr, False
     except subprocess.TimeoutExpired:
         return -1, b"", b"", True
+
+
+def sha(b):
+    return hashlib.sha256(b).hexdigest()
+
+
+def emit_many(cases, extra_args=(), threads=None, timeout=20):
+    """run `complgen --<shell> - -` (usage on stdin, script on stdout) for every case with the binary
+    built from /repo (guard off); returns list of (rc, stdout bytes, stderr bytes, timed_out)"""
+    threads = threads or NCPU
+
+    def one(c):
+        return run_bin(["--" + c["shell"], "-", "-"] + list(extra_args), stdin_text=c["usage"], timeout=timeout)
+    with ThreadPoolExecutor(threads) as ex:
+        return list(ex.map(one, cases))
